@@ -38,7 +38,10 @@ static bus0_pipe *vp_mk_pipe(bool on)
 }
 static void vp_mk_bus(size_t np)
 {
-	__CPROVER_assume(np <= 3);
+#ifndef BUS_NPMAX
+#define BUS_NPMAX 3
+#endif
+	__CPROVER_assume(np <= BUS_NPMAX);
 	g_np = np;
 	g_s  = VP_NEW(bus0_sock);
 	real_list_init_offset(&g_s->pipes, offsetof(bus0_pipe, node));
@@ -51,7 +54,12 @@ static void vp_mk_bus(size_t np)
 	g_pollr_addr = &g_s->can_recv;
 	g_pollw_addr = &g_s->can_send;
 }
-void h_bus0_sock_send(void) { nni_aio *aio; VP_HAVOC_GHOSTS(); vp_mk_bus(nondet_size_t()); bus0_sock_send(g_s, aio); VP_CANARY(); }
+#ifdef BUS_NPCONST
+#define BUS_SEND_NP BUS_NPCONST /* case split on the number of attached pipes: a CONSTANT keeps the list skeleton concrete for symex */
+#else
+#define BUS_SEND_NP nondet_size_t()
+#endif
+void h_bus0_sock_send(void) { nni_aio *aio; VP_HAVOC_GHOSTS(); vp_mk_bus(BUS_SEND_NP); bus0_sock_send(g_s, aio); VP_CANARY(); }
 void h_bus0_pipe_recv_cb(void) { VP_HAVOC_GHOSTS(); vp_mk_bus(nondet_size_t()); bus0_pipe_recv_cb(g_bp0); VP_CANARY(); }
 void h_bus0_sock_recv(void) { nni_aio *aio; VP_HAVOC_GHOSTS(); vp_mk_bus(nondet_size_t()); bus0_sock_recv(g_s, aio); VP_CANARY(); }
 void h_bus0_pipe_send_cb(void) { VP_HAVOC_GHOSTS(); vp_mk_bus(nondet_size_t()); bus0_pipe_send_cb(g_bp0); VP_CANARY(); }
